@@ -1,5 +1,6 @@
 import BoltonsVerif.C04.Proofs
 import BoltonsVerif.C04.Closed
+import BoltonsVerif.C04.View
 import BoltonsVerif.Generated.C04_Consts
 /-
 C04 — property theorems: a trace accepted by `SafeTrace` is crash safe at every prefix under both
@@ -211,5 +212,244 @@ theorem claim_then_rename_breaks :
     let t := [Ev.openPart true true 0o644, .write [1, 2] 0, .flush, .fsync, .close, .noop, .truncDest, .renamePartDest]
     SafeTrace t = false ∧ fs0.readDest = none ∧
       (exec fs0 (t.take 7)).map FS.destAfterProcCrash = some (some []) := by decide
+
+/-! ### round 3: observers of the directory, the `link`/`unlink` window, one writer per part file -/
+
+/-- **What observers see while the save runs (no crash).**  After every event of an accepted trace:
+    a reader of the destination path finds exactly the old state or exactly the complete new content;
+    every inode that existed at the start is unchanged (a reader that OPENED the destination before the
+    save keeps reading exactly the old content through its descriptor, also after the publication);
+    the destination's name never disappears from the directory; before the publishing event the
+    directory entry of the destination is the one from the start. -/
+theorem safeTrace_live_view (fs0 : FS) (t : List Ev) (hwf : fs0.WF) (hh : fs0.hist = [])
+    (hsafe : SafeTrace t = true) :
+    ∀ p q fs, t = p ++ q → exec fs0 p = some fs →
+      (fs.readDest = fs0.readDest ∨ fs.readDest = some (allWrites t)) ∧
+      (∀ i, i < fs0.inodes.length → fs.inodes[i]? = fs0.inodes[i]?) ∧
+      (fs0.hasDest = true → fs.hasDest = true) ∧
+      (publishes p = false → fs.dir.dest = fs0.dir.dest) := by
+  intro p q fs ht hx
+  subst ht
+  have hsp := safeTrace_prefix p q hsafe
+  unfold SafeTrace at hsp
+  cases hp : St.init.run p with
+  | none => simp [hp] at hsp
+  | some s1 =>
+    have hi := inv_run fs0 p St.init s1 fs0 fs [] (inv_init fs0 hh) hp hx
+    simp only [List.nil_append] at hi
+    have hold := inv_old_inodes fs0 s1 fs _ hi
+    obtain ⟨hpub, _⟩ := published_run p St.init s1 hp
+    have hinit : St.init.published = false := by decide
+    rw [hinit, Bool.false_or] at hpub
+    -- the destination's entry
+    have hdest : (publishes p = false → fs.dir.dest = fs0.dir.dest) ∧
+        (publishes p = true → fs.dir.dest = some fs0.inodes.length ∧
+          ∃ x, fs.inodes = fs0.inodes ++ [x] ∧ x.durable = allWrites p ∧ x.tail = []) := by
+      obtain ⟨ph, op, db, us⟩ := s1
+      cases ph <;> simp only [GInv] at hi
+      · have hpv : publishes p = false := by rw [← hpub]; simp [St.published]
+        simp [hpv]; exact hi.2.1
+      · have hpv : publishes p = false := by rw [← hpub]; simp [St.published]
+        simp [hpv]; exact hi.1
+      · have hpv : publishes p = true := by rw [← hpub]; simp [St.published]
+        obtain ⟨h1, _, _, x, h4, h5, h6, _⟩ := hi
+        simp [hpv]; exact ⟨h1, x, h4, h5, h6⟩
+      · have hpv : publishes p = true := by rw [← hpub]; simp [St.published]
+        obtain ⟨h1, _, _, x, h4, h5, h6, _⟩ := hi
+        simp [hpv]; exact ⟨h1, x, h4, h5, h6⟩
+      · have hpv : publishes p = false := by rw [← hpub]; simp [St.published]
+        simp [hpv]; exact hi.1
+    have hread : fs.readDest = fs0.readDest ∨ fs.readDest = some (allWrites (p ++ q)) := by
+      cases hb : publishes p with
+      | false =>
+        left
+        have hd := hdest.1 hb
+        unfold FS.readDest FS.inode?
+        rw [hd]
+        cases h0 : fs0.dir.dest with
+        | none => rfl
+        | some i => simp only; rw [hold i (hwf.1 i h0)]
+      | true =>
+        right
+        obtain ⟨hd, x, h4, h5, h6⟩ := hdest.2 hb
+        obtain ⟨s2, hq⟩ : ∃ s2, s1.run q = some s2 := by
+          unfold SafeTrace at hsafe
+          rw [run_append, hp] at hsafe
+          cases hq : s1.run q with
+          | none => simp [hq] at hsafe
+          | some s2 => exact ⟨s2, rfl⟩
+        have hs1 : s1.published = true := by rw [hpub, hb]
+        have hw : allWrites (p ++ q) = allWrites p := by
+          rw [allWrites_append, (published_run q s1 s2 hq).2 hs1]; simp
+        rw [hw]
+        simp [FS.readDest, FS.inode?, hd, h4, Inode.cache, h5, h6]
+    refine ⟨hread, hold, ?_, hdest.1⟩
+    intro h0
+    cases hb : publishes p with
+    | false => simp [FS.hasDest, hdest.1 hb] at h0 ⊢; exact h0
+    | true => simp [FS.hasDest, (hdest.2 hb).1]
+
+
+
+/-- **The window between `link part dest` and `unlink part`** (`overwrite=False`): both names are hard
+    links to ONE inode that holds the complete new content, all of it durable; a process death there
+    leaves the complete destination PLUS the part file's name; removing that name afterwards (what the
+    interrupted `atomic_rename` had left to do, or a later `overwrite_part` save does) leaves the
+    complete destination and no part file. -/
+theorem link_window (fs0 : FS) (t : List Ev) (hh : fs0.hist = []) (hsafe : SafeTrace t = true) :
+    ∀ p q fs s, t = p ++ q → exec fs0 p = some fs → St.init.run p = some s → s.phase = .linked →
+      fs.sameInode = true ∧ fs.hasPart = true ∧
+      fs.destAfterProcCrash = some (allWrites t) ∧ fs.procCrash.readPart = some (allWrites t) ∧
+      (∀ i, fs.inode? fs.dir.dest = some i → i.tail = []) ∧
+      ∃ fs', fs.procCrash.step .unlinkPart = .ok fs' ∧ fs'.readDest = some (allWrites t) ∧
+        fs'.hasPart = false := by
+  intro p q fs s ht hx hp hl
+  subst ht
+  have hi := inv_run fs0 p St.init s fs0 fs [] (inv_init fs0 hh) hp hx
+  simp only [List.nil_append] at hi
+  obtain ⟨s2, hq⟩ : ∃ s2, s.run q = some s2 := by
+    unfold SafeTrace at hsafe
+    rw [run_append, hp] at hsafe
+    cases hq : s.run q with
+    | none => simp [hq] at hsafe
+    | some s2 => exact ⟨s2, rfl⟩
+  have hs1 : s.published = true := by simp [St.published, hl]
+  have hw : allWrites (p ++ q) = allWrites p := by
+    rw [allWrites_append, (published_run q s s2 hq).2 hs1]; simp
+  rw [hw]
+  obtain ⟨ph, op, db, us⟩ := s
+  simp at hl; subst hl
+  simp only [GInv] at hi
+  obtain ⟨h1, h2, _, x, h4, h5, h6, _⟩ := hi
+  refine ⟨by simp [FS.sameInode, h1, h2], by simp [FS.hasPart, h2], ?_, ?_, ?_, ?_⟩
+  · simp [FS.destAfterProcCrash, FS.procCrash, FS.readDest, FS.inode?, h1, h4, Inode.cache, h5, h6]
+  · simp [FS.procCrash, FS.readPart, FS.inode?, h2, h4, Inode.cache, h5, h6]
+  · intro i hi'
+    simp [FS.inode?, h1, h4] at hi'
+    subst hi'; exact h6
+  · refine ⟨_, by simp [FS.step, FS.unlinkPart, FS.procCrash, h2]; rfl, ?_, ?_⟩
+    · simp [FS.setDir, FS.readDest, FS.inode?, h1, h4, Inode.cache, h5, h6]
+    · simp [FS.setDir, FS.hasPart]
+
+/-- the window is entered by the `link` event -/
+theorem linked_after_link (p : List Ev) (s : St) (h : St.init.run (p ++ [.linkPartDest]) = some s) :
+    s.phase = .linked := by
+  obtain ⟨s1, _, h2⟩ := run_prefix_some _ _ _ _ h
+  simp only [St.run, St.step] at h2
+  by_cases hc : s1.phase = Phase.part ∧ s1.dirtyBuf = false ∧ s1.unsynced = false
+  · simp [hc] at h2; rw [← h2]
+  · simp [hc] at h2
+
+/-- **Publication by `link` never replaces a destination.**  If a destination exists at the start, no
+    accepted trace that publishes by `link` (contains no `rename part dest`) can get past its publishing
+    event (`link` fails with `EEXIST`): at every point the destination's entry and content are the
+    original ones. -/
+theorem link_never_replaces (fs0 : FS) (t : List Ev) (hwf : fs0.WF) (hh : fs0.hist = [])
+    (hsafe : SafeTrace t = true) (hnr : usesRename t = false) (hd : fs0.hasDest = true) :
+    ∀ p q fs, t = p ++ q → exec fs0 p = some fs →
+      publishes p = false ∧ fs.dir.dest = fs0.dir.dest ∧ fs.readDest = fs0.readDest := by
+  intro p q fs ht hx
+  have hpub : publishes p = false := by
+    cases hb : publishes p with
+    | false => rfl
+    | true =>
+      exfalso
+      obtain ⟨p1, e, p2, rfl, hp1, he⟩ := publishes_split p hb
+      subst ht
+      have he' : e = .linkPartDest := by
+        rcases he with rfl | rfl
+        · simp [usesRename_append, usesRename] at hnr
+        · rfl
+      subst he'
+      obtain ⟨fs1, hx1, hx2⟩ := exec_prefix_some fs0 p1 _ fs hx
+      have hsafe1 : SafeTrace (p1 ++ ((.linkPartDest :: p2) ++ q)) = true := by simpa using hsafe
+      have hv := safeTrace_live_view fs0 _ hwf hh hsafe1 p1 _ fs1 rfl hx1
+      have hd1 : fs1.dir.dest = fs0.dir.dest := hv.2.2.2 hp1
+      simp only [exec, FS.step, FS.linkPartDest] at hx2
+      simp only [FS.hasDest] at hd
+      cases hdd : fs0.dir.dest with
+      | none => simp [hdd] at hd
+      | some i =>
+        rw [hd1, hdd] at hx2
+        cases hpp : fs1.dir.part <;> simp [hpp] at hx2
+  have hv := safeTrace_live_view fs0 t hwf hh hsafe p q fs ht hx
+  have hd1 := hv.2.2.2 hpub
+  refine ⟨hpub, hd1, ?_⟩
+  unfold FS.readDest FS.inode?
+  rw [hd1]
+  cases h0 : fs0.dir.dest with
+  | none => rfl
+  | some i => simp only; rw [hv.2.1 i (hwf.1 i h0)]
+
+/-- **One writer per part file**: with a part file in the way and `overwrite_part=False` the exclusive
+    creation fails with `EEXIST` and nothing of the save is executed. -/
+theorem stale_part_blocks (cfg : Cfg) (fs : FS) (body : Body) (hp : fs.hasPart = true)
+    (ho : cfg.overwritePart = false) :
+    exec fs (saverTrace cfg fs body) = none ∧
+    fs.step (.openPart true true (choosePerms cfg fs).1) = .error EEXIST := by
+  simp only [FS.hasPart] at hp
+  cases hpp : fs.dir.part with
+  | none => simp [hpp] at hp
+  | some i =>
+    have h2 : fs.step (.openPart true true (choosePerms cfg fs).1) = .error EEXIST := by
+      simp [FS.step, FS.openPart, hpp]
+    refine ⟨?_, h2⟩
+    simp [saverTrace, ho, exec, h2]
+
+/-- the transliterated saver with `overwrite=False`: its trace is `p ++ [unlink part]`, and after `p`
+    (a crash between `link` and `unlink`) the destination holds the complete new content and the part
+    file's name is a second hard link to the same inode -/
+theorem saver_link_window (cfg : Cfg) (fs0 : FS) (body : Body) (hh : fs0.hist = [])
+    (hp : fs0.dir.part = none ∨ cfg.overwritePart = true) (ho : cfg.overwrite = false)
+    (hd : fs0.dir.dest = none) (hr : body.raises = false) :
+    ∃ p fs, saverTrace cfg fs0 body = p ++ [.unlinkPart] ∧ exec fs0 p = some fs ∧
+      fs.sameInode = true ∧ fs.hasPart = true ∧
+      fs.destAfterProcCrash = some (body.writes.map (·.1)).flatten ∧
+      fs.procCrash.readPart = some (body.writes.map (·.1)).flatten := by
+  obtain ⟨fsE, hxE, _⟩ := saver_exec cfg fs0 body hh hp (Or.inr (Or.inl hd))
+  have hsplit : ∃ p0, saverTrace cfg fs0 body = (p0 ++ [.linkPartDest]) ++ [.unlinkPart] := by
+    refine ⟨(if cfg.overwritePart && fs0.dir.part.isSome then [Ev.unlinkPart] else []) ++
+      [Ev.openPart true true (choosePerms cfg fs0).1, Ev.noop] ++
+      (if (choosePerms cfg fs0).2 then [Ev.chmodPart (choosePerms cfg fs0).1] else []) ++
+      body.writes.map (fun w => Ev.write w.1 w.2) ++ [Ev.flush, Ev.fsync, Ev.close], ?_⟩
+    simp [saverTrace, ho, hr, List.append_assoc]
+  obtain ⟨p0, hs⟩ := hsplit
+  rw [hs] at hxE
+  obtain ⟨fs, hx, _⟩ := exec_prefix_some fs0 _ _ fsE hxE
+  have hrun := saver_run cfg fs0 body
+  rw [hs] at hrun
+  obtain ⟨s, hrs, _⟩ := run_prefix_some _ _ _ _ hrun
+  have hl := linked_after_link p0 s hrs
+  have hw := link_window fs0 (saverTrace cfg fs0 body) hh (saver_safe cfg fs0 body) _ _ fs s hs hx hrs hl
+  rw [allWrites_saverTrace] at hw
+  exact ⟨_, fs, hs, hx, hw.1, hw.2.1, hw.2.2.1, hw.2.2.2.1⟩
+
+/-- non-vacuity -/
+example : let fs0 : FS := ⟨[], ⟨none, none⟩, [], none, 0o022⟩
+    let t := saverTrace { overwrite := false } fs0 ⟨[([1, 2], 0), ([3], 1)], false⟩
+    (exec fs0 t.dropLast).map (fun fs => (fs.sameInode, fs.hasPart, fs.destAfterProcCrash)) = some (true, true, some [1, 2, 3]) ∧
+    (St.init.run t.dropLast).map (·.phase) = some .linked := by decide
+
+/-- **Nothing a died save leaves behind blocks a later `overwrite_part` save**: from ANY state `fs`
+    (in particular every crash state of an earlier save, incl. the link window), once the process is gone
+    and the directory has reached the disk (`FS.reboot`), a save with `overwrite=True, overwrite_part=True`
+    whose block exits normally completes with exactly its own content and no part file. -/
+theorem save_after_crash (fs : FS) (cfg2 : Cfg) (body2 : Body) (ho : cfg2.overwrite = true)
+    (hop : cfg2.overwritePart = true) (hr : body2.raises = false) :
+    ∃ fs', exec fs.reboot (saverTrace cfg2 fs.reboot body2) = some fs' ∧
+      fs'.readDest = some (body2.writes.map (·.1)).flatten ∧ fs'.dir.part = none := by
+  obtain ⟨fs', h1, h2, h3, _⟩ := normal_exit cfg2 fs.reboot body2 rfl (Or.inr hop) (Or.inl ho) hr
+  exact ⟨fs', h1, h2, h3⟩
+
+example : let fs0 : FS := ⟨[⟨[7], [], 0o644⟩], ⟨some 0, none⟩, [], none, 0o022⟩
+    fs0.WF ∧ fs0.hist = [] ∧ fs0.hasDest = true ∧
+    SafeTrace [Ev.openPart true true 0o644, .write [1] 0, .flush, .fsync, .close, .linkPartDest, .unlinkPart] = true ∧
+    usesRename [Ev.openPart true true 0o644, .write [1] 0, .flush, .fsync, .close, .linkPartDest, .unlinkPart] = false ∧
+    exec fs0 [Ev.openPart true true 0o644, .write [1] 0, .flush, .fsync, .close, .linkPartDest] = none ∧
+    (exec fs0 [Ev.openPart true true 0o644, .write [1] 0, .flush, .fsync, .close]).isSome = true := by decide
+
+example : let fs0 : FS := ⟨[⟨[7], [], 0o644⟩, ⟨[9, 9], [], 0o640⟩], ⟨some 0, some 1⟩, [], none, 0o022⟩
+    fs0.hasPart = true ∧ exec fs0 (saverTrace {} fs0 ⟨[([1], 0)], false⟩) = none := by decide
+
 
 end C04
